@@ -359,7 +359,7 @@ def check_C06(tier, replay):
             rc = v.finish()
             shutil.rmtree(wd, ignore_errors=True)
             return rc
-    N = 200 if q else 1000
+    N = int(os.environ.get("VERIF_C06_N", 200 if q else 1000))
     jobs = []
     # balance groups: fixed inputs, N runs each; both values on every wire of the observed party
     for (n, h, pe) in ([(2, 0, 1), (3, 1, 1)] if q else [(2, 0, 1), (2, 1, 1), (3, 1, 1), (3, 2, 0), (4, 0, 2)]):
